@@ -155,8 +155,9 @@ theorem buildAction_inv (sortFn : List Utxo → List Utxo) (hperm : ∀ l, (sort
           have hm := hsub.subset hu
           simp only [List.mem_filter] at hm
           have hc := (hperm _).mem_iff.mp hm.1
-          simp only [findUtxos, matching, List.mem_filter, matchesReq, Bool.and_eq_true, beq_iff_eq] at hc
-          exact ⟨hc.1.2.1.2, hc.1.2.1.1⟩
+          simp only [findUtxos, List.mem_filter] at hc
+          obtain ⟨_, h2, h3, _⟩ := mem_matching hc.1
+          exact ⟨h3, h2⟩
         by_cases hbad : (r.utxos.takeWhile (fun u => decide (u.amount ≤ maxInt64))).length < r.utxos.length
         · simp [hbad] at h
         · simp only [hbad, if_false] at h
@@ -267,18 +268,15 @@ theorem runActions_inv (sortFn : List Utxo → List Utxo) (hperm : ∀ l, (sortF
           simpa using this
 
 
-/-! ### no output is spent twice (when no output is listed twice) -/
+/-! ### no output is spent twice -/
 
 /-- inputs so far are pairwise distinct and each is marked reserved in the keeper -/
 def DInv (s : Keeper × Builder) : Prop :=
   (s.2.ins.map (·.id)).Nodup ∧ ∀ u ∈ s.2.ins, (mLookup u.id s.1.reserved).isSome = true
 
-def ListedNodup (k : Keeper) : Prop := ∀ useUnc, ((listed k useUnc).map (·.id)).Nodup
-
 theorem buildAction_dinv (sortFn : List Utxo → List Utxo) (hperm : ∀ l, (sortFn l).Perm l) (exp : Nat)
     (s s' : Keeper × Builder) (a : Action)
-    (h : buildAction sortFn exp s a = (s', none)) (hd : DInv s) (hl : ListedNodup s.1) :
-    DInv s' ∧ ListedNodup s'.1 := by
+    (h : buildAction sortFn exp s a = (s', none)) (hd : DInv s) : DInv s' := by
   cases a with
   | control asset amount prog =>
     simp only [buildAction] at h
@@ -286,14 +284,14 @@ theorem buildAction_dinv (sortFn : List Utxo → List Utxo) (hperm : ∀ l, (sor
     · simp at h
     · simp at h
     simp only [Prod.mk.injEq, and_true] at h
-    subst h; exact ⟨hd, hl⟩
+    subst h; exact hd
   | retire asset amount =>
     simp only [buildAction] at h
     split_ifs at h with c1 c2
     · simp at h
     · simp at h
     simp only [Prod.mk.injEq, and_true] at h
-    subst h; exact ⟨hd, hl⟩
+    subst h; exact hd
   | spend acct asset amount useUnc =>
     simp only [buildAction] at h
     by_cases h0 : (amount == 0) = true
@@ -309,14 +307,7 @@ theorem buildAction_dinv (sortFn : List Utxo → List Utxo) (hperm : ∀ l, (sor
           simp only [List.mem_filter, isReserved, Bool.not_eq_true', Option.isSome_eq_false_iff,
             Option.isNone_iff_eq_none] at hm
           exact hm.2
-        have hnd : (r.utxos.map (·.id)).Nodup := by
-          have s1 : (r.utxos.map (·.id)).Sublist ((sortFn (findUtxos s.1 acct asset useUnc 0).1).map (·.id)) :=
-            (hsub.trans List.filter_sublist).map _
-          have p1 := ((hperm (findUtxos s.1 acct asset useUnc 0).1).map (·.id))
-          have s2 : ((findUtxos s.1 acct asset useUnc 0).1.map (·.id)).Sublist ((listed s.1 useUnc).map (·.id)) := by
-            simp only [findUtxos, matching]
-            exact (List.filter_sublist.trans List.filter_sublist).map _
-          exact s1.nodup (p1.nodup_iff.mpr (s2.nodup (hl useUnc)))
+        have hnd : (r.utxos.map (·.id)).Nodup := reserved_nodup sortFn hperm s.1 acct asset useUnc 0 r.utxos hsub
         have hnew : DInv (afterReserve s.1 r, { s.2 with ins := s.2.ins ++ r.utxos, rids := s.2.rids ++ [r.id] }) := by
           constructor
           · simp only [List.map_append]
@@ -340,7 +331,6 @@ theorem buildAction_dinv (sortFn : List Utxo → List Utxo) (hperm : ∀ l, (sor
               rcases hu with hu | hu
               · exact hd.2 u hu
               · exact absurd (List.mem_map_of_mem hu) hm
-        have hl' : ListedNodup (afterReserve s.1 r) := hl
         by_cases hbad : (r.utxos.takeWhile (fun u => decide (u.amount ≤ maxInt64))).length < r.utxos.length
         · simp [hbad] at h
         · simp only [hbad, if_false] at h
@@ -356,10 +346,10 @@ theorem buildAction_dinv (sortFn : List Utxo → List Utxo) (hperm : ∀ l, (sor
               · simp only [hmax, if_false, Prod.mk.injEq, and_true] at h
                 subst h
                 rw [hu0] at hnew
-                exact ⟨⟨hnew.1, hnew.2⟩, hl'⟩
+                exact ⟨hnew.1, hnew.2⟩
           · simp only [hchg, if_false, Prod.mk.injEq, and_true] at h
             subst h
-            exact ⟨⟨hnew.1, hnew.2⟩, hl'⟩
+            exact ⟨hnew.1, hnew.2⟩
       · exfalso
         cases hres : reserveWith sortFn s.1 acct asset amount useUnc 0 exp with
         | mk o k' =>
@@ -371,15 +361,15 @@ theorem buildAction_dinv (sortFn : List Utxo → List Utxo) (hperm : ∀ l, (sor
 
 theorem runActions_dinv (sortFn : List Utxo → List Utxo) (hperm : ∀ l, (sortFn l).Perm l) (exp : Nat) :
     ∀ (actions : List Action) (i : Nat) (s s' : Keeper × Builder),
-    runActions sortFn exp actions i s = (s', []) → DInv s → ListedNodup s.1 → DInv s' := by
+    runActions sortFn exp actions i s = (s', []) → DInv s → DInv s' := by
   intro actions
   induction actions with
   | nil =>
-    intro i s s' h hd _
+    intro i s s' h hd
     simp only [runActions, Prod.mk.injEq, and_true] at h
     subst h; exact hd
   | cons a rest ih =>
-    intro i s s' h hd hl
+    intro i s s' h hd
     simp only [runActions] at h
     cases h1 : buildAction sortFn exp s a with
     | mk s1 e =>
@@ -393,8 +383,7 @@ theorem runActions_dinv (sortFn : List Utxo → List Utxo) (hperm : ∀ l, (sort
         | none =>
           simp only at h
           obtain ⟨rfl, rfl⟩ := h
-          obtain ⟨hd1, hl1⟩ := buildAction_dinv sortFn hperm exp s s1 a h1 hd hl
-          exact ih (i + 1) s1 s2 h2 hd1 hl1
+          exact ih (i + 1) s1 s2 h2 (buildAction_dinv sortFn hperm exp s s1 a h1 hd)
 
 
 /-! ### rollback: a failed Build leaves no reservation behind -/
